@@ -190,6 +190,19 @@ def inputs_rule(ctx, fv):
     ok = len(ins) == 1 and "u64" in ins[0]["args"][0].get("ty", "") and "u32" in ins[0]["args"][1].get("ty", "")
     ctx.check("C08.P", "compute_coverages:table_insert", ok, "counts.insert(kmer, count)",
               "the loaded table is not filled by insert(<u64 k-mer>, <u32 count>)", line_of(ins[0]) if ins else fv.fn["sp"])
+    if ins:
+        ll = fv.enclosing(ins[0], ("for", "while", "loop"))
+        branchy = [x for x in walk(ll["body"]) if x.get("k") in ("if", "match", "continue", "break", "ret")] if ll else [fv.body]
+        okl = ll is not None and not branchy and fv.in_closure_passed_to(ins[0], lambda c: True) is None
+        ctx.check("C08.P", "compute_coverages:every_line_loaded", okl, "every line of the counts table is inserted unconditionally",
+                  "the counts-table loader skips or filters lines (`%s` in the loading loop): a k-mer that occurs in the "
+                  "counting input would be treated as absent (bin 0)" % (branchy[0].get("k") if branchy else "?"),
+                  line_of(branchy[0]) if branchy and branchy[0] is not fv.body else line_of(ins[0]))
+        # the two fields come from the line in file order: first field -> key, second -> value
+        parses = [n for n in walk(ll["body"]) if n.get("k") == "mcall" and cname(n).endswith("::parse")] if ll else []
+        okf = len(parses) == 2 and "u64" in parses[0].get("ty", "") and "u32" in parses[1].get("ty", "")
+        ctx.check("C08.P", "compute_coverages:field_order", okf, "field 1 -> k-mer (u64), field 2 -> count (u32)",
+                  "loader parses fields as %s" % [p_.get("ty", "")[:40] for p_ in parses], line_of(ins[0]))
     # vectorise_one receives that table
     ones = fv.calls_to(ONE)
     tabs = set(repr(fv.term(o["args"][1])) for o in ones)
